@@ -134,6 +134,9 @@ def postcondition(r, user, status, before, after):
             return "the item does not exist afterwards"
         if _items(after[coll])[href][0] not in [o["uid"] for o in r["objs"]] and r["objs"]:
             return "the stored item has UID %s" % _items(after[coll])[href][0]
+        if coll in before and href in _items(before[coll]) and _items(before[coll])[href][0] != _items(after[coll])[href][0]:
+            return ("an existing object (UID %s) was overwritten with one that has another UID (%s): RFC 4791 5.3.2.1 / RFC 6352 6.3.2.1 "
+                    "no-uid-conflict asks for a conflict answer" % (_items(before[coll])[href][0], _items(after[coll])[href][0]))
         return unchanged_except(item=(coll, href))
     if m == "DELETE":
         if r.get("as_collection") or target in before:       # (a collection can be addressed without the trailing slash)
@@ -156,6 +159,9 @@ def postcondition(r, user, status, before, after):
             return "the destination does not exist"
         if sc in before and sh in _items(before[sc]) and _items(after[dc])[dh][0] != _items(before[sc])[sh][0]:
             return "the destination holds UID %s, the source had %s" % (_items(after[dc])[dh][0], _items(before[sc])[sh][0])
+        if dc in before and dh in _items(before[dc]) and _items(before[dc])[dh][0] != _items(after[dc])[dh][0]:
+            return ("an existing object (UID %s) was overwritten by MOVE with one that has another UID (%s): no-uid-conflict asks for a "
+                    "conflict answer" % (_items(before[dc])[dh][0], _items(after[dc])[dh][0]))
         # both names excepted
         b2 = {p: dict(e, items=[i for i in e["items"] if (p, i["href"]) not in ((sc, sh), (dc, dh))]) for p, e in before.items()}
         a2 = {p: dict(e, items=[i for i in e["items"] if (p, i["href"]) not in ((sc, sh), (dc, dh))]) for p, e in after.items()}
